@@ -56,9 +56,11 @@ var repoRoot = func() string {
 	}
 	return "/repo"
 }()
+
 const goBin = "/opt/veriftools/go1.26.8/bin/go"
 
 type propDef struct {
+	Also      []string // further worlds explored under the same property (each gets a share of the budget)
 	ID        string
 	World     string
 	Race      bool
@@ -145,7 +147,7 @@ func init() {
 			Stubs: []string{"publisher: simulated (identifiable H.264 / LPCM samples with scripted pauses and absolute-time jumps)", "playback authentication: admit-all (permission is C04)", "HTTP listener: handlers are called through gin test contexts"}})
 	}
 	w3("C27", "fault_enumeration",
-		"seeded recording (video/audio mix, GOP, segment/part durations, maxPartSize, pauses, absolute-time jumps that restart the recorder) x crash states of every segment file: box boundaries +-1, header interior and seeded random write offsets (thorough: up to 200 per file, 1 recording in 20 with every offset), truncated tail and zero-filled tail up to the end of the write in progress, torn in-place duration patch; evaluations = simulated recordings, crash states are counted in coverage.extra_totals.crash_states; non-trivial = at least one crash state was checked; distinct = distinct (event-log hash, states)",
+		"seeded recording (video/audio mix, GOP, segment/part durations, maxPartSize, pauses, absolute-time jumps that restart the recorder) x crash states of every segment file: box boundaries +-1, header interior and seeded random write offsets (thorough: up to 200 per file; in 1 recording in 20 every offset of one segment file, in a window of 12000 bytes when the file is longer), truncated tail and zero-filled tail up to the end of the write in progress, torn in-place duration patch; evaluations = simulated recordings, crash states are counted in coverage.extra_totals.crash_states; non-trivial = at least one crash state was checked; distinct = distinct (event-log hash, states)",
 		"enumeration of crash states of real recordings made by the real recorder; for each state the real playback code must serve every sample an independent box reader finds in complete parts; closed segments are checked for structure, true duration, key-frame start, continuity and the one-part loss bound",
 		"trusted: the independent box reader (worlds/w3/zz_boxes.go); crash model = byte prefix of the append-only file with truncated or zero-filled tail, plus partial application of the duration patch; block reordering of earlier writes is outside",
 		40, 2000, "*")
@@ -165,7 +167,10 @@ func init() {
 		"trusted: pass instants are derived from the cleaner's documented period (half the smallest delay, at most 30 min); 1 ms tolerance at the expiry boundary; configuration reloads while the cleaner runs are not exercised",
 		400, 40000)
 	props["C40"].Race = true
-	props["C40"].Quick, props["C40"].Thorough = 1200, 100000
+	props["C40"].Quick, props["C40"].Thorough = 1500, 100000
+	props["C40"].QuickS, props["C40"].ThorS = 150, 1800
+	props["C40"].Also = []string{"w2", "w3"}
+	props["C40"].Real = append(props["C40"].Real, "20% of the runs each: world w2 (real Core with concurrent API configuration edits and reads, path manager, configuration watcher, record cleaner) and world w3 (recorder, playback list/get handlers with their parsing goroutines, record store), both built with the race detector")
 	props["C40"].LevelNote += "; metrics scrapes over HTTP and real session kick paths are outside (front-ends are stubs); data races are those the Go race detector reports under the explored schedules"
 }
 
@@ -180,12 +185,13 @@ type violation struct {
 }
 
 type sched struct {
-	Seed      int64   `json:"seed"`
-	SelSeed   uint64  `json:"sel_seed"`
-	Strategy  string  `json:"strategy"`
-	StallProb float64 `json:"stall_prob"`
-	MaxSteps  int64   `json:"max_steps"`
-	HorizonS  int64   `json:"horizon_s"`
+	Seed      int64    `json:"seed"`
+	SelSeed   uint64   `json:"sel_seed"`
+	Strategy  string   `json:"strategy"`
+	StallProb float64  `json:"stall_prob"`
+	MaxSteps  int64    `json:"max_steps"`
+	HorizonS  int64    `json:"horizon_s"`
+	Focus     []string `json:"focus,omitempty"`
 }
 
 type scenario struct {
@@ -695,8 +701,13 @@ func cmdCheck(args []string) {
 		wall = *wallFlag
 	}
 	t0 := time.Now()
-	b := buildWorld(p.World, p.Race)
-	defer os.RemoveAll(b.scratch)
+	worlds := append([]string{p.World}, p.Also...)
+	builts := map[string]*built{}
+	for _, wn := range worlds {
+		builts[wn] = buildWorld(wn, p.Race)
+		defer os.RemoveAll(builts[wn].scratch)
+	}
+	b := builts[p.World]
 	known := loadKnown()
 
 	st := newStats()
@@ -711,87 +722,108 @@ func cmdCheck(args []string) {
 	if p.Chunk > 0 {
 		chunk = p.Chunk
 	}
-	first := baseSeed * 10_000_000
-	next := first
-	end := first + int64(runs)
-	deadline := time.Now().Add(time.Duration(wall * float64(time.Second)))
 	var mu sync.Mutex
 	var found []*line // runs with violations claimed by this property
 	var knownHits = map[string]int{}
 	var infraErr string
 	stop := false
-	var wg sync.WaitGroup
-	for w := 0; w < nw; w++ {
-		wg.Add(1)
-		go func() {
-			defer wg.Done()
-			for {
-				mu.Lock()
-				if stop || next >= end || time.Now().After(deadline) {
-					mu.Unlock()
-					return
-				}
-				from := next
-				cnt := chunk
-				if from+cnt > end {
-					cnt = end - from
-				}
-				next += cnt
-				mu.Unlock()
-				for cnt > 0 {
-					sp := &spec{World: p.World, Property: p.ID, Tier: *tier, SeedFrom: from, SeedCount: cnt}
-					lines, crashed, logText := runWorker(b, sp, 10*time.Minute)
+	worldOf := func(seed int64) string {
+		k := (seed - baseSeed*10_000_000) / 2_000_000
+		if k < 0 || int(k) >= len(worlds) {
+			k = 0
+		}
+		return worlds[k]
+	}
+	for wi, world := range worlds {
+		bw := builts[world]
+		// the first world gets the whole budget when it is alone, else 60%; the others share the rest
+		share := 1.0
+		if len(worlds) > 1 {
+			share = 0.6
+			if wi > 0 {
+				share = 0.4 / float64(len(worlds)-1)
+			}
+		}
+		first := baseSeed*10_000_000 + int64(wi)*2_000_000
+		next := first
+		end := first + int64(float64(runs)*share)
+		deadline := time.Now().Add(time.Duration(wall * share * float64(time.Second)))
+		var wg sync.WaitGroup
+		for w := 0; w < nw; w++ {
+			wg.Add(1)
+			go func() {
+				defer wg.Done()
+				for {
 					mu.Lock()
-					var last int64 = from - 1
-					violated := false
-					for _, l := range lines {
-						st.add(l)
-						if l.Done {
-							continue
-						}
-						last = l.Seed
-						for _, v := range l.Violations {
-							if v.Property == "!" {
-								infraErr = fmt.Sprintf("seed %d: %s: %s", l.Seed, v.Clause, v.Detail)
-								stop = true
-							} else if claims(p, v) {
-								if k := matchKnown(known, v); k != nil {
-									knownHits[k.Property+" "+k.What]++
-								} else {
-									violated = true
-								}
-							} else {
-								st.otherProps[v.Property+":"+v.Clause]++
-							}
-						}
-						if violated {
-							found = append(found, l)
-							stop = true
-							break
-						}
-					}
-					if crashed && !violated {
-						infraErr = fmt.Sprintf("worker for seeds %d..%d died after seed %d:\n%s", from, from+cnt-1, last, logText)
-						stop = true
-					}
-					if p.Race && logText != "" && !violated {
-						// a race report without a recorded violation (outside a run)
-						infraErr = "race detector report outside a simulated run:\n" + tail(logText, 3000)
-						stop = true
-					}
-					done := last - from + 1
-					from += done
-					cnt -= done
-					s := stop
-					mu.Unlock()
-					if s || done == 0 {
+					if stop || next >= end || time.Now().After(deadline) {
+						mu.Unlock()
 						return
 					}
+					from := next
+					cnt := chunk
+					if from+cnt > end {
+						cnt = end - from
+					}
+					next += cnt
+					mu.Unlock()
+					for cnt > 0 {
+						sp := &spec{World: world, Property: p.ID, Tier: *tier, SeedFrom: from, SeedCount: cnt}
+						lines, crashed, logText := runWorker(bw, sp, 10*time.Minute)
+						mu.Lock()
+						var last int64 = from - 1
+						violated := false
+						for _, l := range lines {
+							st.add(l)
+							if l.Done {
+								continue
+							}
+							last = l.Seed
+							for _, v := range l.Violations {
+								if v.Property == "!" {
+									infraErr = fmt.Sprintf("seed %d: %s: %s", l.Seed, v.Clause, v.Detail)
+									stop = true
+								} else if claims(p, v) {
+									if k := matchKnown(known, v); k != nil {
+										knownHits[k.Property+" "+k.What]++
+									} else {
+										violated = true
+									}
+								} else {
+									st.otherProps[v.Property+":"+v.Clause]++
+								}
+							}
+							if violated {
+								found = append(found, l)
+								stop = true
+								break
+							}
+						}
+						if crashed && !violated {
+							infraErr = fmt.Sprintf("worker for seeds %d..%d died after seed %d:\n%s", from, from+cnt-1, last, logText)
+							stop = true
+						}
+						if p.Race && logText != "" && !violated {
+							// a race report without a recorded violation (outside a run)
+							infraErr = "race detector report outside a simulated run:\n" + tail(logText, 3000)
+							stop = true
+						}
+						done := last - from + 1
+						from += done
+						cnt -= done
+						s := stop
+						mu.Unlock()
+						if s || done == 0 {
+							return
+						}
+					}
 				}
-			}
-		}()
+			}()
+		}
+		wg.Wait()
+		if stop {
+			break
+		}
 	}
-	wg.Wait()
 	runWall := time.Since(t0).Seconds()
 	if infraErr != "" {
 		infra("%s", infraErr)
@@ -828,7 +860,7 @@ func cmdCheck(args []string) {
 			go func(s int64) {
 				defer wg2.Done()
 				defer func() { <-sem }()
-				lines, _, _ := runWorker(b, &spec{World: p.World, Property: p.ID, Tier: *tier, SeedFrom: s, SeedCount: 1}, 5*time.Minute)
+				lines, _, _ := runWorker(builts[worldOf(s)], &spec{World: worldOf(s), Property: p.ID, Tier: *tier, SeedFrom: s, SeedCount: 1}, 5*time.Minute)
 				mu.Lock()
 				defer mu.Unlock()
 				for _, l := range lines {
@@ -864,7 +896,7 @@ func cmdCheck(args []string) {
 		if *tier == "thorough" {
 			budget = 8 * time.Minute
 		}
-		replayPath = confirmShrinkWrite(b, p, l, v, budget)
+		replayPath = confirmShrinkWrite(builts[worldOf(l.Seed)], p, l, v, budget)
 		nviol = 1
 	}
 
@@ -1155,7 +1187,15 @@ func cmdReplay(args []string) {
 	if p == nil {
 		infra("unknown property %s", rf.Property)
 	}
-	b := buildWorld(p.World, p.Race)
+	world := p.World
+	if rf.Scenario != nil {
+		for _, w := range p.Also {
+			if w == rf.Scenario.World {
+				world = w
+			}
+		}
+	}
+	b := buildWorld(world, p.Race)
 	defer os.RemoveAll(b.scratch)
 	r := replayOnce(b, rf.Scenario, rf.Decisions, true)
 	if r == nil {
